@@ -190,7 +190,67 @@ def get_program(case):
     return g.program(case.get("nlines"))
 
 
+CLI_LAST_LINES = ["30 DATA HELLO  ,WORLD  ", "30 REM END OF PART 1   ", "30 ' TRAILING   ", '30 A$="READY  ', "30 DATA X,  ", '30 PRINT "A  ";:B$=" ',
+                  "30 PRINT A", "30 DATA   "]
+
+
+def run_cli_tail(case):
+    """The command line (file in, file out): line ends and a trailing NUL are layout there too, and the blanks that END the
+    last line are content when that line ends in a DATA item, a comment or an open string literal."""
+    import io
+    import os
+    import sys
+    from coco import decb_to_b09
+    from .. import run
+
+    obs = {"counters": {}, "viols": [], "sets": {}}
+    last = CLI_LAST_LINES[case["last"] % len(CLI_LAST_LINES)]
+    base = "10 A=1\n20 PRINT A;\"X\"\n" + last
+    d = os.path.join(run.WORK, "c08cli-%d" % os.getpid())
+    os.makedirs(d, exist_ok=True)
+    src, dst = os.path.join(d, "prog.bas"), os.path.join(d, "prog.b09")
+
+    def conv(text):
+        with open(src, "w", newline="") as f:
+            f.write(text)
+        if os.path.exists(dst):
+            os.remove(dst)
+        saved = (sys.stdout, sys.stderr)
+        sys.stdout, sys.stderr = io.StringIO(), io.StringIO()
+        try:
+            decb_to_b09.start(case.get("flags", []) + [src, dst])
+            with open(dst, "rb") as f:
+                return ("ok", f.read())
+        except BaseException as exc:  # noqa: BLE001
+            return ("refused", type(exc).__name__)
+        finally:
+            sys.stdout, sys.stderr = saved
+
+    ref = conv(base + "\n")
+    obs["key"] = "cli|%s|%s" % (last, case.get("flags"))
+    variants = {"no-final-eol": base, "nul": base + "\n\x00", "crlf": base.replace("\n", "\r\n") + "\r\n",
+                "cr": base.replace("\n", "\r") + "\r", "eol-eol-nul": base + "\n\n\x00", "crlf-nul": base.replace("\n", "\r\n") + "\r\n\x00"}
+    n = 0
+    for name, text in variants.items():
+        got = conv(text)
+        n += 1
+        if got != ref and not (got[0] != "ok" and ref[0] != "ok"):
+            dd = None
+            if got[0] == "ok" and ref[0] == "ok":
+                a, b = ref[1].split(b"\r"), got[1].split(b"\r")
+                dd = next(((x.decode("latin1"), y.decode("latin1")) for x, y in zip(a, b) if x != y), (len(a), len(b)))
+            obs["viols"].append({"sig": "C08/cli/%s/%s" % (name, "accepted-vs-refused" if got[0] != ref[0] else "bytes-differ"),
+                                 "detail": {"last_line": last, "variant": name, "first_difference": dd, "reference": ref[0], "variant_outcome": got[0]}})
+            break
+    obs["counters"]["layouts_compared"] = n
+    obs["counters"]["cli_layouts_compared"] = n
+    obs["evaluations"] = n + 1
+    return obs
+
+
 def run_case(case):
+    if case.get("mode") == "cli_tail":
+        return run_cli_tail(case)
     obs = {"counters": {}, "viols": [], "sets": {}}
     prog = get_program(case)
     lines = render_tokens(prog)
@@ -297,6 +357,9 @@ def cases(tier, seed):
     for i in range(nr):
         yield {"mode": "family" if i % 3 else "sweep", "reuse": True, "seed": seed * 6007 + i, "opts": [{}, {"initialize_vars": True}][i % 2],
                "sample": i % 60 == 0}
+    for i in range(len(CLI_LAST_LINES)):
+        for fl in ([], ["-l", "-z"], ["-D"]):
+            yield {"mode": "cli_tail", "last": i, "flags": fl}
     m = 150 if tier == "quick" else 6000
     for i in range(m):
         yield {"mode": "sweep", "seed": seed * 7919 + i, "knobs": {"max_depth": 1}, "nlines": 1 + i % 2, "opts": {}, "sample": i % 70 == 0}
